@@ -2,10 +2,11 @@
 import itertools
 
 from mc.harness import harness, oracle
-from mc.kit import E, E2, EqE, Script, snapshot, brief
+from mc.kit import E, E2, EqE, FalsyE, Script, snapshot, brief
 from .common import Stack, LAYERS, ABBR
 
-SCRIPTS = {"ok": ("ok",), "Eok": ("E", "ok"), "EEok": ("E", "E", "ok"), "X": ("X",), "EEEE": ("E",) * 12, "Q": ("Q",)}
+SCRIPTS = {"ok": ("ok",), "Eok": ("E", "ok"), "EEok": ("E", "E", "ok"), "X": ("X",), "EEEE": ("E",) * 12, "Q": ("Q",),
+           "Fok": ("F", "ok"), "FFFF": ("F",) * 12}
 PAIRS = (("ok", "ok"), ("Eok", "ok"), ("EEok", "X"), ("X", "Eok"), ("EEEE", "ok"))
 
 
@@ -54,6 +55,9 @@ def ref_eval(layers, script, faulty, sub, efn=None, flatfail=None):
         if o == "Q":
             return ("err", "EqE", "fn%d#%d" % (sub, k))
         if o == "E":
+            return ("err", "E", "fn%d#%d" % (sub, k))
+        if o == "F":
+            # a falsy exception object of the retried family
             return ("err", "E", "fn%d#%d" % (sub, k))
         return ("err", "E2", "fn%d#%d" % (sub, k))
 
@@ -115,7 +119,7 @@ def body(mc, p):
         opts["error_fn@%d" % pos] = [("call", lambda ex, _pos=pos: f_return(("rec", _pos)))]
     st = Stack(mc, layers, base=p["base"], workers=2, opts=opts)
     ex = st.top
-    OUT = {"ok": None, "E": ("raise", E), "X": ("raise", E2), "Q": ("raise", EqE)}
+    OUT = {"ok": None, "E": ("raise", E), "X": ("raise", E2), "Q": ("raise", EqE), "F": ("raise", FalsyE)}
     fns, fs = [], [None, None]
     for i, sk in enumerate(p["scripts"]):
         entries = []
@@ -202,6 +206,11 @@ harness("c01.d6", prop="C01", traced=(), horizon=800,
         params=_params((6,), bases=("sync",), pairs=(("Eok", "X"),), faulty=False, threads=(1,)))(body)
 oracle("c01.d6")(check)
 
+# exception objects that are falsy travel through every layer like any other exception
+harness("c01.falsy", prop="C01", traced=(), horizon=120,
+        params=_params((1, 2), pairs=(("Fok", "ok"), ("FFFF", "ok")), faulty=False, threads=(1,)))(body)
+oracle("c01.falsy")(check)
+
 MF = ("map", "flat_map", "throttle", "timeout")
 harness("c01.lines", prop="C01", traced=("common", "map"), horizon=120,
         params=[dict(layers=(a, b), base="tp", scripts=(sc, "ok"), faulty=None, nthreads=1)
@@ -215,9 +224,11 @@ oracle("c01.narrow")(check)
 
 PLAN = {
     "quick": [dict(harness="c01.d1", bound=2), dict(harness="c01.d2", bound=1, select=lambda p: p["nthreads"] == 2 or p["faulty"] is not None),
-              dict(harness="c01.d2", bound=0), dict(harness="c01.d3", bound=0), dict(harness="c01.lines", bound=1), dict(harness="c01.narrow", bound=3)],
+              dict(harness="c01.d2", bound=0), dict(harness="c01.d3", bound=0), dict(harness="c01.lines", bound=1), dict(harness="c01.narrow", bound=3),
+              dict(harness="c01.falsy", bound=0)],
     "thorough": [dict(harness="c01.d1", bound=3), dict(harness="c01.d2", bound=2, select=lambda p: p["nthreads"] == 2),
                  dict(harness="c01.d2", bound=1), dict(harness="c01.d3", bound=1, select=lambda p: p["scripts"] == ("Eok", "ok")),
                  dict(harness="c01.d3", bound=0), dict(harness="c01.d4", bound=0), dict(harness="c01.d5", bound=0),
-                 dict(harness="c01.d6", bound=0), dict(harness="c01.lines", bound=2), dict(harness="c01.narrow", bound=3)],
+                 dict(harness="c01.d6", bound=0), dict(harness="c01.lines", bound=2), dict(harness="c01.narrow", bound=3),
+                 dict(harness="c01.falsy", bound=1)],
 }
